@@ -59,4 +59,45 @@ theorem lifting {Loc Val P : Type} (F : P → Loc → Prop) (V : P → Loc → V
       exact hin pix0 p l hF
     · exact ih hnd' (step pix0 q) p hps l hF
 
+/-
+In-place variant (source == destination): the value written for pixel p may depend on the buffer,
+but only on p's own footprint (the iteration reads its pixel, then writes it). Then the result is
+V evaluated on the ORIGINAL buffer, for any order of the iterations.
+-/
+theorem lifting_inplace {Loc Val P : Type} (F : P → Loc → Prop) (V : (Loc → Val) → P → Loc → Val)
+    (step : (Loc → Val) → P → (Loc → Val))
+    (hin : ∀ pix p l, F p l → step pix p l = V pix p l)
+    (hout : ∀ pix p l, ¬ F p l → step pix p l = pix l)
+    (hloc : ∀ pix pix' p, (∀ l, F p l → pix l = pix' l) → ∀ l, V pix p l = V pix' p l)
+    (hdisj : ∀ p q l, p ≠ q → F p l → ¬ F q l) :
+    ∀ (ps : List P), ps.Nodup → ∀ (pix0 : Loc → Val),
+      (∀ p, p ∈ ps → ∀ l, F p l → ps.foldl step pix0 l = V pix0 p l) ∧
+      (∀ l, (∀ p, p ∈ ps → ¬ F p l) → ps.foldl step pix0 l = pix0 l) := by
+  intro ps hnd pix0
+  refine ⟨?_, fun l h => foldl_outside F step hout ps pix0 l h⟩
+  induction ps generalizing pix0 with
+  | nil => intro p hp; cases hp
+  | cons q ps ih =>
+    intro p hp l hF
+    have hq_notin : q ∉ ps := (List.nodup_cons.mp hnd).1
+    have hnd' : ps.Nodup := (List.nodup_cons.mp hnd).2
+    simp only [List.foldl_cons]
+    rcases List.mem_cons.mp hp with hpq | hps
+    · subst hpq
+      have hrest : ∀ r, r ∈ ps → ¬ F r l := by
+        intro r hr
+        have hne : p ≠ r := fun e => hq_notin (e ▸ hr)
+        exact hdisj p r l hne hF
+      rw [foldl_outside F step hout ps (step pix0 p) l hrest]
+      exact hin pix0 p l hF
+    · -- p is processed later: the first iteration q left p's footprint as it was
+      have hne : q ≠ p := fun e => hq_notin (e ▸ hps)
+      have hagree : ∀ l', F p l' → step pix0 q l' = pix0 l' := by
+        intro l' hF'
+        have : ¬ F q l' := fun hq => hdisj q p l' hne hq hF'
+        exact hout pix0 q l' this
+      rw [ih hnd' (step pix0 q) p hps l hF]
+      exact hloc (step pix0 q) pix0 p hagree l
+
 #print axioms lifting
+#print axioms lifting_inplace
